@@ -34,7 +34,7 @@ import (
 	"verif/harness/core"
 )
 
-var Driver = core.Driver{ID: "C14", Level: "model_checking", Run: run, Replay: replay, SelfTest: selfTest}
+var Driver = core.Driver{ID: "C14", Level: "exploration", Run: run, Replay: replay, SelfTest: selfTest}
 
 var traceOpts = core.TLCOpts{Dir: "font", Module: "Trace_FontCodes", Cfg: "Trace_FontCodes.cfg", XssMB: 1024, XmxMB: 3000}
 
@@ -170,6 +170,10 @@ type record struct {
 	// CloseErr is the error of closing the document; the specification allows
 	// one only after an Encode that failed for lack of codes
 	CloseErr string `json:"closeerr"`
+	// Tolerate: second judgement of a document that shows the recorded finding
+	// (shared code in a font with one code per glyph), so that it cannot hide
+	// another failure in the same document
+	Tolerate bool   `json:"tolerate"`
 	Version  string `json:"version"`
 	Origin   string `json:"origin"`
 }
@@ -646,23 +650,55 @@ func run(ctx *core.Ctx) error {
 	if mcErr != nil {
 		return mcErr
 	}
-	report(ctx, recs, docs, bad)
-	return nil
+	return report(ctx, recs, docs, bad)
 }
 
-func report(ctx *core.Ctx, recs []record, docs []*docCase, bad []int) {
+const sharedComposite = "encode/code-shared/composite"
+
+func report(ctx *core.Ctx, recs []record, docs []*docCase, bad []int) error {
 	type cls struct {
 		n     int
 		first int
 		what  string
 	}
 	byKey := map[string]*cls{}
-	for _, b := range bad {
-		k, what := classify(&recs[b])
+	add := func(k, what string, b int) {
 		if byKey[k] == nil {
 			byKey[k] = &cls{first: b, what: what}
 		}
 		byKey[k].n++
+	}
+	var retry []int
+	for _, b := range bad {
+		k, what := classify(&recs[b], false)
+		add(k, what, b)
+		if k == sharedComposite {
+			retry = append(retry, b)
+		}
+	}
+	// documents rejected for the shared code of a one-code-per-glyph font are judged
+	// again with that answer tolerated: anything else wrong in them must still show
+	if len(retry) > 0 {
+		again := make([]record, len(retry))
+		for i, b := range retry {
+			again[i] = recs[b]
+			again[i].Tolerate = true
+		}
+		o := traceOpts
+		o.Timeout = ctx.Dur(10, 30)
+		bad2, err := core.JudgeCases(ctx, o, again, 8, 10)
+		if err != nil {
+			return err
+		}
+		for _, j := range bad2 {
+			k, what := classify(&again[j], true)
+			if k == sharedComposite || k == "unclassified" {
+				k, what = "unclassified/beside-shared-code", "Trace_FontCodes rejects the document even when the shared code of the composite font is tolerated"
+			}
+			add(k, what, retry[j])
+		}
+		ctx.Ev.Set("documents_rejudged_with_finding_tolerated", len(retry))
+		ctx.Ev.Set("documents_still_rejected", len(bad2))
 	}
 	keys := make([]string, 0, len(byKey))
 	for k := range byKey {
@@ -673,10 +709,11 @@ func report(ctx *core.Ctx, recs []record, docs []*docCase, bad []int) {
 		c := byKey[k]
 		ctx.Violation(k, fmt.Sprintf("%s (%d documents of this class rejected by Trace_FontCodes; first: %s)", c.what, c.n, recs[c.first].Origin), docs[c.first])
 	}
+	return nil
 }
 
 // classify locates the first event the rules reject (for the key only).
-func classify(r *record) (string, string) {
+func classify(r *record, tolerant bool) (string, string) {
 	if r.Err == "" && r.CloseErr != "" {
 		overflowed := false
 		for _, e := range r.Events {
@@ -748,6 +785,10 @@ func classify(r *record) (string, string) {
 				continue
 			}
 			if _, used := t.info[fmt.Sprint(e.C)]; used {
+				if tolerant && r.Fonts[e.F-1].PerGlyph && t.info[fmt.Sprint(e.C)].G == e.G {
+					t.code[pk(e.G, e.T)] = e.C // alias of the glyph's one code
+					continue
+				}
 				cl := kindOf(e.F)
 				if r.Fonts[e.F-1].Cap > 256 {
 					cl = "composite" // one cause for all composite fonts with a fixed CMap: GetCode ignores the text
@@ -834,6 +875,5 @@ func replay(ctx *core.Ctx, raw json.RawMessage) error {
 		return err
 	}
 	fmt.Printf("  %d events, err=%q\n", len(rec.Events), rec.Err)
-	report(ctx, []record{rec}, []*docCase{&dc}, bad)
-	return nil
+	return report(ctx, []record{rec}, []*docCase{&dc}, bad)
 }
